@@ -2,9 +2,11 @@ import DelbModel.Model.XPath.Create
 /-!
 # C15: vocabulary of the hypotheses of the `_partial` theorems
 
-`fetch_or_create_by_xpath` resolves prefixes with `namespaces.get(prefix)` while it builds nodes, but the
+`_create_by_xpath` resolves prefixes with `namespaces.get(prefix)` while it builds nodes, but the
 query raises for an unbound prefix; and attributes are set per *expanded* name.  The two hypotheses
-below say that neither difference is visible.
+`stepPrefixesBound` and `consistentStepIn` say that neither difference is visible.  Since
+`fetch_or_create_by_xpath` checks the (non-empty) prefixes before it creates anything, the first one follows
+from the success of a call for steps without a present-but-empty prefix (`stepNoEmptyPrefix`).
 -/
 namespace Delb.XPath
 open Delb.Edit
@@ -35,5 +37,19 @@ def testPrefixBound (env : NsEnv) : NodeTest → Bool
 /-- all prefixes a step mentions are bound in `env` -/
 def stepPrefixesBound (env : NsEnv) (s : Step) : Bool :=
   testPrefixBound env s.test && s.preds.all (exprPrefixesBound env)
+
+/-- no attribute test of the predicate has a prefix that is present but empty (`some []`); the parser
+    takes prefixes from NAME tokens, which are never empty -/
+def exprNoEmptyPrefix : Expr → Bool
+  | .attrVal (some p) _ => !p.isEmpty
+  | .hasAttr (some p) _ => !p.isEmpty
+  | .binop _ l r => exprNoEmptyPrefix l && exprNoEmptyPrefix r
+  | _ => true
+
+/-- neither the name test nor an attribute test of the step has the prefix `some []` -/
+def stepNoEmptyPrefix (s : Step) : Bool :=
+  (match s.test with
+   | .name (some p) _ => !p.isEmpty
+   | _ => true) && s.preds.all exprNoEmptyPrefix
 
 end Delb.XPath
